@@ -9,19 +9,34 @@
 (* byte-slicing model of the unrepaired code (D9) violates it is printed   *)
 (* with each behaviour.                                                    *)
 EXTENDS Field, Json, FiniteSets
-CONSTANTS MaxLen, Alphabet, Ws, Aligns, Wide, TWs, Kinds
+CONSTANTS MaxLen, Alphabet, Ws, Aligns, Wide, TWs, Kinds,
+          BarWs,     \* widths W of [{bar:<al><W>}] fields (1- and 2-column progress clusters; printed once, with the empty content); {} = none
+          Wide2      \* TRUE: also {prefix:P} {wide_msg:<al>}suf - the text in front of the wide element comes from another field, which may overflow its width
 VARIABLES s, done
 vars == <<s, done>>
 
 Pres == {<<>>, <<120>>, <<1001>>, <<233, 58>>}          \* "", "x", one CJK glyph, "e-acute :"
 Sufs == {<<>>, <<121>>, <<1002, 124>>}                   \* "", "y", CJK glyph + "|"
 
-MsgOps(c) == { [op |-> "field", kind |-> kd, m |-> c, w |-> W, al |-> a, tr |-> t, pre |-> <<91>>, suf |-> <<93>>, tw |-> IF W < 100 THEN 200 ELSE 65535] :
+(* one record shape for all kinds: cw / chars belong to kind "bar", pw / pm (width and content of the prefix field) to kind "wide2" *)
+X0 == [cw |-> 0, chars |-> <<>>, pw |-> 0, pm |-> <<>>]
+MsgOps(c) == { [op |-> "field", kind |-> kd, m |-> c, w |-> W, al |-> a, tr |-> t, pre |-> <<91>>, suf |-> <<93>>, tw |-> IF W < 100 THEN 200 ELSE 65535] @@ X0 :
                  kd \in Kinds, W \in Ws, a \in Aligns, t \in BOOLEAN }
 WideOps(c) == IF ~Wide THEN {} ELSE
-              { [op |-> "field", kind |-> "wide", m |-> c, w |-> WideWidth(tw, p, q), al |-> a, tr |-> TRUE, pre |-> p, suf |-> q, tw |-> tw] :
+              { [op |-> "field", kind |-> "wide", m |-> c, w |-> WideWidth(tw, p, q), al |-> a, tr |-> TRUE, pre |-> p, suf |-> q, tw |-> tw] @@ X0 :
                  tw \in TWs, a \in Aligns, p \in Pres, q \in Sufs }
-OpsOf(c) == MsgOps(c) \cup WideOps(c)
+(* a progress bar inside a field of W columns: floor(W/c) clusters of c columns, the rest is padding on the side(s) of the alignment *)
+BarChars(c) == IF c = 1 THEN <<35, 62, 45>> ELSE <<1000, 1001, 1002>>
+BarOps(c) == IF c # <<>> THEN {} ELSE
+             { [op |-> "field", kind |-> "bar", m |-> <<>>, w |-> W, al |-> a, tr |-> FALSE, pre |-> <<91>>, suf |-> <<93>>, tw |-> 200, cw |-> k, chars |-> BarChars(k), pw |-> 0, pm |-> <<>>] :
+                 W \in BarWs, a \in Aligns \cup {""}, k \in {1, 2} }
+(* the text in front of the wide element is itself a field: {prefix:P} followed by a blank; a prefix wider than P is kept unshortened *)
+PreFields == { <<2, <<112>>>>, <<2, <<112, 113, 114, 115>>>>, <<3, <<1001, 1002>>>>, <<0, <<112, 113>>>> }
+Wide2Ops(c) == IF ~Wide2 THEN {} ELSE
+               { [op |-> "field", kind |-> "wide2", m |-> c, w |-> WideWidth(tw, RefField(pf[2], pf[1], "<", FALSE) \o <<32>>, q), al |-> a, tr |-> TRUE,
+                  pre |-> RefField(pf[2], pf[1], "<", FALSE) \o <<32>>, suf |-> q, tw |-> tw, cw |-> 0, chars |-> <<>>, pw |-> pf[1], pm |-> pf[2]] :
+                 tw \in TWs, a \in Aligns, pf \in PreFields, q \in {<<>>, <<124>>} }
+OpsOf(c) == MsgOps(c) \cup WideOps(c) \cup BarOps(c) \cup Wide2Ops(c)
 
 RECURSIVE SetToSeq(_)
 SetToSeq(S) == IF S = {} THEN <<>> ELSE LET x == CHOOSE x \in S : TRUE IN <<x>> \o SetToSeq(S \ {x})
@@ -40,6 +55,6 @@ Spec == Init /\ [][Next]_vars
 RefOK == \A o \in OpsOf(s) :
             LET F == RefField(o.m, o.w, o.al, o.tr) IN
             /\ FieldOK(F, o.m, o.w, o.al, o.tr)
-            /\ LineOK(o.pre \o F \o o.suf, o.pre, o.suf, o.m, o.w, o.al, o.tr, o.kind = "wide")
+            /\ LineOK(o.pre \o F \o o.suf, o.pre, o.suf, o.m, o.w, o.al, o.tr, o.kind \in {"wide", "wide2"})
 TypeOK == Len(s) <= MaxLen /\ RefOK
 =============================================================================
